@@ -276,24 +276,30 @@ def run_case(case, ns):
             obs['clauses'][nm] = bool(eval_clause(src, env2, old, ns))
         except Exception as e:
             obs['clauses'][nm] = 'error: %r' % (e,)
-    # reads-clause differential: perturb every byte outside [lo, hi) and compare
-    for pname, lo_src, hi_src in case.get('reads', []):
+    # reads-clause differential: "decoded from its own bytes only" means the
+    # outcome equals the outcome on the own bytes alone (standalone overrides),
+    # or, without overrides, is insensitive to every byte outside [lo, hi)
+    for pname, lo_src, hi_src, over in case.get('reads', []):
         try:
-            lo = eval_clause(lo_src, old, old, ns)
-            hi = eval_clause(hi_src, old, old, ns)
             b2 = Builder(ns)
             envp = {k: b2.build(v) for k, v in case['params'].items()}
-            data = bytearray(envp[pname])
-            for i in range(len(data)):
-                if not (lo <= i < hi):
-                    data[i] ^= 0xFF
-            envp[pname] = bytes(data) if isinstance(envp[pname], bytes) else data
+            if over:
+                for k, src in over.items():
+                    envp[k] = eval_clause(src, old, old, ns)
+            else:
+                lo = eval_clause(lo_src, old, old, ns)
+                hi = eval_clause(hi_src, old, old, ns)
+                data = bytearray(envp[pname])
+                for i in range(len(data)):
+                    if not (lo <= i < hi):
+                        data[i] ^= 0xFF
+                envp[pname] = bytes(data) if isinstance(envp[pname], bytes) else data
             try:
                 r2 = ('return', summarize(call_target(case, envp)))
             except BaseException as e2:   # noqa
                 r2 = ('raise', type(e2).__name__)
             r1 = ('return', obs.get('result')) if obs['outcome'] == 'return' else ('raise', obs['exc_class'].split('.')[-1])
-            obs.setdefault('reads_differs', {})[pname] = (r1 != r2)
+            obs.setdefault('reads_differs', {})[pname] = (json.dumps(r1, sort_keys=True) != json.dumps(r2, sort_keys=True))
             obs.setdefault('reads_other', {})[pname] = r2
         except Exception as e:
             obs.setdefault('reads_differs', {})[pname] = 'error: %r' % (e,)
